@@ -48,6 +48,22 @@ MUTANTS = {
     "kwargs_key_mangle": (N, 'key.split(".")[-1]: uxn.result(results)', 'key: uxn.result(results)', ["C20", "C01"]),
     "return_list_as_tuple": (H, "        if isinstance(return_uxns, list):\n            return list(gen)", "        if isinstance(return_uxns, list):\n            return tuple(gen)", ["C01"]),
     "args_setdefault": (H, "            results.force_set(node_id, arg)", "            results.setdefault(node_id, arg)", ["C01"]),
+    "async_wait_blocks_loop": (H, "    done_, running = await asyncio.wait(running, return_when=return_when)\n",
+                               "    import time as _t\n    while not any(f.done() for f in running):\n        _t.sleep(0.001)\n    done_, running = await asyncio.wait(running, return_when=return_when)\n", ["C17", "C09"]),
+    "async_wait_polls_loop": (H, "    done_, running = await asyncio.wait(running, return_when=return_when)\n",
+                              "    import time as _t\n    _t.sleep(0.2)\n    done_, running = await asyncio.wait(running, return_when=return_when)\n", ["C17"]),
+    "build_context_any_thread": (N, "    return exec_nodes_lock.locked() and describing_thread_ident == get_ident()", "    return exec_nodes_lock.locked()", ["C16"]),
+    "no_build_lock": ("tawazi/_dag/constructor.py", "    with node.exec_nodes_lock:\n        node.describing_thread_ident = get_ident()", "    if True:\n        node.describing_thread_ident = get_ident()", ["C16"]),
+    "shared_results_between_calls": (H, "    results = copy(results)\n    profiles", "    profiles", ["C15", "C16"]),
+    "setup_recomputed": (D, "            if xn.setup and not xn.executed(self.results):\n                logger.debug(\"Setting result of setup ExecNode {} to {}\", node_id, result)", "            if False:\n                logger.debug(\"Setting result of setup ExecNode {} to {}\", node_id, result)", ["C11"]),
+    "setup_deepcopied": (H, "        if x_nd.setup:\n            x_nodes_copy[id_] = x_nd", "        if False:\n            x_nodes_copy[id_] = x_nd", []),
+    "presetup_keeps_nonsetup": (D, "            [node_id for node_id in graph if node_id not in self.graph_ids.setup_nodes]", "            [node_id for node_id in graph if False]", ["C11"]),
+    "executor_no_graph_copy": (D, "            deepcopy(self.graph), self.results, *args\n        )\n\n        return self._post_call()\n\n\nclass Async", "            self.graph, self.results, *args\n        )\n\n        return self._post_call()\n\n\nclass Async", ["C15"]),
+    "cache_not_loaded": (D, "                results.force_set(node_id, result)\n", "                pass\n", ["C18"]),
+    "cache_deps_includes_n": (D, "id_: res for id_, res in results.items() if id_ not in non_cacheable_ids", "id_: res for id_, res in results.items()", ["C18"]),
+    "compose_active_not_rewired": (D, "                if xn.active is not None and xn.active.id == old_id:", "                if False:", ["C19"]),
+    "compose_shares_nodes": (D, "(in_id, deepcopy(self.exec_nodes[in_id])) for in_id in set_xn_ids if in_id not in in_ids", "(in_id, self.exec_nodes[in_id]) for in_id in set_xn_ids if in_id not in in_ids", ["C19"]),
+    "compose_missing_input_not_checked": (D, "                    if pred in dag_inputs_ids:\n                        _raise_missing_input(pred)\n", "", ["C19"]),
     "skip_pruning_none": (H, "            results[xn.id] = None\n", "", ["C10", "C01"]),
 }
 
